@@ -5,6 +5,7 @@ committed baseline (spec/baseline.json) pins the tags that must exist."""
 # unit -> default tag for an untagged precondition failure whose callee is outside the unit
 # (vstd's `unwrap`, indexing, ...): a panic in that code is what the tag's property forbids.
 NOPANIC_TAG = {
+    "UTIL": "C05.corrupt",
     "ACT": "C04.nopanic",
     "RELAY": "C04.nopanic",
     "BLD": "C04.nopanic",
@@ -24,7 +25,7 @@ ASSUME = {
     "A-fs": "A-fs: directory listing, metadata, file contents, remove/create are the ghost world's functions (walkdir, is_file, .zinoma pruning are not verified)",
     "A-codec": "A-codec: bincode decode returns Ok(s) iff the bytes are encode(s); encode is injective and prefix-free; SeaHasher is a function of the bytes written",
     "A-cmd": "A-cmd: running build_command(script, dir) yields the world's cmd(dir, script)",
-    "A-all": "A-all: async_utils::all / both, future::join / try_join_all, Result::map, collect() behave as their names say (true iff every future is; one result per element in order; fold of insert); the per-element closures are outlined and verified (R13)",
+    "A-all": "A-all: iterator adapters and future combinators at the call sites — map/filter/collect, future::join / try_join_all, Result::map, and_then — behave as their names say (one result per element in order; fold of insert); the per-element closures are outlined and verified (R13); async_utils::both and ::all themselves are verified in the UTIL unit against futures-as-values (select yields either side first; buffer_unordered yields in any order)",
     "A-clap": "A-clap: clap's ArgMatches::is_present is an uninterpreted predicate of the flag name",
     "A-str": "A-str: str/Path/OsStr predicates (ends_with, starts_with, file_name, to_string_lossy, is_in_work_dir, matches_extensions) are uninterpreted functions; to_string_lossy is total",
     "A-kani": "A-kani (bounded stand-in): async_std::path::Path is std::path::Path; anyhow!'s text is dropped; results hold within the stated bounds only",
@@ -43,9 +44,9 @@ PROPS = {
     "C01": {"units": ["ACT", "RELAY", "CFG"], "level": "proof", "assume": ACTORS},
     "C04": {"units": ["ACT", "RELAY"], "level": "proof", "assume": ACTORS + ["A-exec"],
             "not_covered": ["not covered: liveness itself (executor fairness, that scripts terminate, any time bound) - only the safety skeleton of termination is proved"]},
-    "C02": {"units": ["INC"], "level": "proof", "assume": INCA,
+    "C02": {"units": ["INC", "UTIL"], "level": "proof", "assume": INCA,
             "not_covered": ["not covered: hash collisions (the record holds a hash of the content), the directory walk itself (A-fs), timestamp granularity"]},
-    "C03": {"units": ["INC"], "level": "proof", "assume": INCA,
+    "C03": {"units": ["INC", "UTIL"], "level": "proof", "assume": INCA,
             "not_covered": ["not covered: 're-running executes no script' across two processes is the conjunction of C03.record at the end of run 1 and C03.reflexive at the start of run 2 under A-codec, not a two-process experiment; a read error on the state file forces a rebuild"]},
     "C05": {"units": ["INC", "BLD", "ACT"], "level": "proof", "assume": INCA + ["A-chan", "A-proc", "R16"]},
     "C06": {"units": ["ACT", "RELAY", "INC", "WCH"], "level": "proof", "assume": ACTORS + ["A-notify", "A-fs", "A-codec"],
